@@ -7,6 +7,11 @@ use serde_json::Value;
 
 pub fn check(name: &str, case: &Value, v: &Violation) -> bool {
     match name {
+        "allof_integer_and_number" => {
+            let txt = case.get("members").map(|m| m.to_string()).unwrap_or_default() + &case.get("base").map(|m| m.to_string()).unwrap_or_default();
+            txt.contains("\"type\":\"number\"") && txt.contains("\"type\":\"integer\"")
+        }
+        "allof_member_with_additional_properties_schema" => case.get("members").and_then(|m| m.as_array()).map(|m| m.iter().any(|x| x.get("additionalProperties").map(|a| a.is_object()).unwrap_or(false))).unwrap_or(false) || case.get("base").and_then(|b| b.get("additionalProperties")).map(|a| a.is_object()).unwrap_or(false),
         "allof_member_is_oneof" => case.get("members").and_then(|m| m.as_array()).map(|m| m.iter().any(|x| x.get("oneOf").is_some())).unwrap_or(false),
         "allof_required_but_forbidden" => {
             let ms: Vec<&Value> = case.get("members").and_then(|m| m.as_array()).map(|m| m.iter().collect()).unwrap_or_default();
